@@ -147,7 +147,7 @@ func main() {
 			fmt.Fprintf(&b, "\t{\n\t\tcr, hr := &rec{}, &rec{}\n")
 			fmt.Fprintf(&b, "\t\tmount, h := cp%d.New%sHandler(cp%d.Unimplemented%sHandler{}, connect.WithInterceptors(hr))\n", f.ID, g, f.ID, g)
 			fmt.Fprintf(&b, "\t\tmux := http.NewServeMux()\n\t\tmux.Handle(mount, h)\n")
-			fmt.Fprintf(&b, "\t\t%s := cp%d.New%sClient(&memnet.Mem{Handler: mux}, \"http://route.test/\", connect.WithInterceptors(cr), connect.WithGRPC())\n", v, f.ID, g)
+			fmt.Fprintf(&b, "\t\t%s := cp%d.New%sClient(&memnet.Mem{Handler: mux}, \"http://route.test/\", connect.WithInterceptors(cr), connect.WithGRPC())\n\t\t_ = %s\n", v, f.ID, g, v)
 			for _, m := range s.Methods {
 				gm := GoCamelCase(m.Name)
 				in := f.goType(m.In)
